@@ -79,7 +79,9 @@ func (l *Linter) lintStatements(statements []ast.Statement, ctx *context.Context
 	for _, stmt := range statements {
 		if include, ok := stmt.(*ast.IncludeStatement); ok {
 			if strings.HasPrefix(include.Module.Value, "snippet::") {
-				l.lintStatements(l.resolveSnippetInclusion(include, ctx, false), ctx)
+				l.withSnippetInclusion(include, ctx, func(included []ast.Statement) {
+					l.lintStatements(included, ctx)
+				})
 				continue
 			}
 			l.withFileInclusion(include, ctx, false, func(included []ast.Statement) {
